@@ -218,6 +218,212 @@ def exhaustive_k2(ctx: Ctx):
     return part
 
 
+# ---- (a') the AES round-key cache under the same scheduler ------------------------------------------------------------
+class _SchedCache(__import__("collections").OrderedDict):
+    """OrderedDict whose lookups and updates by controlled threads are scheduling points."""
+
+    def _pt(self, kind):
+        s = getattr(_TL, "sched", None)
+        if s is not None:
+            s.point(_TL.tid, kind)
+
+    def get(self, k, d=None):
+        self._pt("R")
+        return super().get(k, d)
+
+    def move_to_end(self, k, last=True):
+        self._pt("W")
+        return super().move_to_end(k, last)
+
+    def __setitem__(self, k, v):
+        self._pt("W")
+        return super().__setitem__(k, v)
+
+    def popitem(self, last=True):
+        self._pt("W")
+        return super().popitem(last)
+
+
+def run_cache_schedule(k: int, choices: list[int], warm: int):
+    """k threads encrypt one block each with their own key while the 4-entry round-key cache holds `warm` other keys (oldest first = thread 0's key)."""
+    from vf.gen import refaes
+    from sharepoint2text.parsing.extractors.pdf import _pypdf_aes_fallback as fb
+    keys = [bytes([0x10 + i]) * 16 for i in range(k)]
+    block = bytes(range(16))
+    cache = _SchedCache()
+    old = fb._ROUND_KEY_CACHE
+    fb._ROUND_KEY_CACHE = cache
+    try:
+        # thread 0's key is the oldest entry of a cache that is `warm` entries full
+        if warm:
+            fb._get_round_keys(keys[0])
+            for j in range(warm - 1):
+                fb._get_round_keys(bytes([0x80 + j]) * 16)
+        sched = Sched()
+        out: list = [None] * k
+
+        def body(i):
+            _TL.sched, _TL.tid = sched, i
+            try:
+                sched.point(i, "start")
+                try:
+                    out[i] = fb.aes_ecb_encrypt(keys[i], block)
+                except BaseException as e:  # noqa
+                    out[i] = f"raised {type(e).__name__}: {e!r}"
+            finally:
+                _TL.sched = None
+                sched.done(i)
+        ths = [threading.Thread(target=body, args=(i,), daemon=True) for i in range(k)]
+        for t in ths:
+            t.start()
+        branching, deadlock = sched.drive(choices, k)
+        for t in ths:
+            t.join(timeout=5)
+    finally:
+        fb._ROUND_KEY_CACHE = old
+    want = [bytes(refaes.ecb_encrypt(keys[i], block)) for i in range(k)]
+    return {"out": out, "want": want, "trace": sched.trace, "branching": branching, "deadlock": deadlock, "size": len(cache)}
+
+
+def judge_cache_schedule(k, choices, warm):
+    r = run_cache_schedule(k, choices, warm)
+    tr = "".join(f"{t}{kind[0]}" for t, kind in r["trace"])
+    fails = []
+    if r["deadlock"]:
+        fails.append(("deadlock", f"round-key cache k={k} warm={warm} choices={choices}: no progress; trace {tr}"))
+    for i, (g, w) in enumerate(zip(r["out"], r["want"])):
+        if g != w:
+            fails.append(("result-depends-on-concurrency", f"round-key cache, {k} threads, cache pre-filled with {warm} keys, choices={choices[:len(r['branching'])]}: thread {i} got {g if isinstance(g, str) else g.hex()}, alone {w.hex()}; trace {tr}"))
+            break
+    if r["size"] > 4:
+        fails.append(("state-not-restored", f"round-key cache grew to {r['size']} entries (bound 4); trace {tr}"))
+    tids = [t for t, kind in r["trace"] if kind != "start"]
+    blocks = [g for g, _ in itertools.groupby(tids)]
+    return fails, r, len(blocks) > len(set(blocks))
+
+
+def exhaustive_cache_k2(ctx: Ctx):
+    part = Partial()
+    n = 0
+    for warm in (0, 3, 4):
+        stack = [[]]
+        while stack:
+            prefix = stack.pop()
+            fails, r, inter = judge_cache_schedule(2, prefix, warm)
+            n += 1
+            part.case(digest(["cache", warm, tuple(r["trace"])]), inter, sample={"sub": "round-key cache", "warm": warm, "trace": "".join(f"{t}{kind[0]}" for t, kind in r["trace"])} if n % 13 == 0 else None, k=2, cache_warm=warm)
+            part.violations += [Violation(c, f"C15:schedule:{c}", d, {"kind": "cache-schedule", "k": 2, "choices": prefix, "warm": warm}) for c, d in fails[:1]]
+            for i in range(len(prefix), len(r["branching"])):
+                for alt in range(1, r["branching"][i]):
+                    stack.append(prefix + [0] * (i - len(prefix)) + [alt])
+            if n > 5000:
+                raise RuntimeError("cache schedule tree unexpectedly large")
+    part.exhaustive["schedules of 2 threads through the AES round-key cache (3 fill levels)"] = n
+    return part
+
+
+# ---- (a'') the lazily filled type registry of the serialisation module ---------------------------------------------------
+class _SchedDict(dict):
+    def _pt(self, kind):
+        s = getattr(_TL, "sched", None)
+        if s is not None:
+            s.point(_TL.tid, kind)
+
+    def __len__(self):
+        self._pt("R")
+        return super().__len__()
+
+    def __contains__(self, k):
+        self._pt("R")
+        return super().__contains__(k)
+
+    def __getitem__(self, k):
+        self._pt("R")
+        return super().__getitem__(k)
+
+    def __setitem__(self, k, v):
+        self._pt("W")
+        return super().__setitem__(k, v)
+
+
+def run_registry_schedule(first: int, steps: int):
+    """Two threads call from_json for the first time in the process; thread `first` runs `steps` scheduling steps, then the other one runs to its end (one preemption)."""
+    from sharepoint2text.parsing.extractors import serialization as ser
+    from sharepoint2text.parsing.extractors.data_types import HtmlContent, PlainTextContent
+    payloads = [(HtmlContent, json.loads(_REG_PAYLOADS[0])), (PlainTextContent, json.loads(_REG_PAYLOADS[1]))]
+    old = ser._TYPE_REGISTRY
+    ser._TYPE_REGISTRY = _SchedDict()
+    try:
+        sched = Sched()
+        out: list = [None, None]
+
+        def body(i):
+            _TL.sched, _TL.tid = sched, i
+            try:
+                sched.point(i, "start")
+                try:
+                    cls, pl = payloads[i]
+                    obj = cls.from_json(pl)
+                    _TL.sched = None
+                    out[i] = (type(obj).__name__, type(getattr(obj, "metadata", None)).__name__, json.dumps(obj.to_json(), sort_keys=True) == json.dumps(pl, sort_keys=True))
+                except BaseException as e:  # noqa
+                    out[i] = f"raised {type(e).__name__}: {e!r}"
+            finally:
+                _TL.sched = None
+                sched.done(i)
+        ths = [threading.Thread(target=body, args=(i,), daemon=True) for i in range(2)]
+        for t in ths:
+            t.start()
+        # index into the sorted list of parked threads: `first` while it has steps left, then the other one
+        choices = [first] * (steps + 1) + [1 - first if first == 0 else 0] * 4000
+        branching, deadlock = sched.drive(choices, 2)
+        for t in ths:
+            t.join(timeout=5)
+    finally:
+        ser._TYPE_REGISTRY = old
+    return out, deadlock, len(sched.trace)
+
+
+_REG_PAYLOADS: list = []
+
+
+def _registry_payloads():
+    if not _REG_PAYLOADS:
+        from sharepoint2text.parsing.router import get_extractor
+        h = list(get_extractor("x.html")(io.BytesIO(b"<html><head><title>T</title></head><body><p>ZB07501 text</p><table><tr><td>a</td></tr></table></body></html>"), "x.html"))[0]
+        t = list(get_extractor("x.txt")(io.BytesIO(b"plain ZB07502 text\n"), "x.txt"))[0]
+        _REG_PAYLOADS.extend([json.dumps(h.to_json()), json.dumps(t.to_json())])
+    return _REG_PAYLOADS
+
+
+def registry_schedules(ctx: Ctx):
+    part = Partial()
+    _registry_payloads()
+    want = [("HtmlContent", "HtmlMetadata", True), ("PlainTextContent", "FileMetadata", True)]
+    base = [None, None]
+    n = 0
+    for first in (0, 1):
+        steps = 0
+        total = None
+        while total is None or steps <= min(total, 400):
+            out, deadlock, ntrace = run_registry_schedule(first, steps)
+            total = ntrace if total is None else total
+            n += 1
+            if base[0] is None and steps == 0 and first == 0:
+                pass
+            part.case(digest(["registry", first, steps]), 0 < steps, sample={"sub": "type registry", "first": first, "steps": steps, "out": [str(o)[:60] for o in out]} if n % 29 == 0 else None, k=2, registry=True)
+            ok = [isinstance(o, tuple) and o[0] == w[0] and o[2] for o, w in zip(out, want)]
+            if deadlock or not all(ok):
+                bad = next(i for i, x in enumerate(ok) if not x) if not deadlock else 0
+                part.violations.append(Violation("result-depends-on-concurrency", "C15:schedule:result-depends-on-concurrency",
+                                                 f"type registry: thread {first} runs {steps} steps of its first from_json(), then thread {1 - first} runs: thread {bad} produced {out[bad]!r} instead of a round-tripping {want[bad][0]}"
+                                                 + (" (no progress)" if deadlock else ""), {"kind": "registry-schedule", "first": first, "steps": steps}))
+                break
+            steps += 1 if steps < 12 else 7
+    part.exhaustive["one-preemption schedules of two first from_json() calls over the lazy type registry"] = n
+    return part
+
+
 def sampled_k(ctx: Ctx):
     part = Partial()
 
@@ -582,6 +788,8 @@ def stress_shard(ctx: Ctx):
 def run(ctx: Ctx) -> Partial:
     part = Partial()
     part.merge(shard_map(ctx, "vf.props.c15", "exhaustive_k2", 1))
+    part.merge(shard_map(ctx, "vf.props.c15", "exhaustive_cache_k2", 1))
+    part.merge(shard_map(ctx, "vf.props.c15", "registry_schedules", 1))
     part.merge(shard_map(ctx, "vf.props.c15", "sampled_k", 6))
     part.merge(shard_map(ctx, "vf.props.c15", "cold_pairs", 16))
     part.merge(shard_map(ctx, "vf.props.c15", "histories_shard", 8))
@@ -594,6 +802,15 @@ def replay(ctx: Ctx, payload: dict):
     if k == "schedule":
         fails, _, _ = judge_schedule(payload["k"], payload["choices"])
         return _viol_sched(payload["k"], payload["choices"], fails)
+    if k == "registry-schedule":
+        _registry_payloads()
+        out, deadlock, _ = run_registry_schedule(payload["first"], payload["steps"])
+        want = ["HtmlContent", "PlainTextContent"]
+        bad = [i for i, (o, w) in enumerate(zip(out, want)) if not (isinstance(o, tuple) and o[0] == w and o[2])]
+        return [Violation("result-depends-on-concurrency", "C15:schedule:result-depends-on-concurrency", f"type registry schedule first={payload['first']} steps={payload['steps']}: {out}", payload)] if bad or deadlock else []
+    if k == "cache-schedule":
+        fails, _, _ = judge_cache_schedule(payload["k"], payload["choices"], payload["warm"])
+        return [Violation(c, f"C15:schedule:{c}", d, payload) for c, d in fails[:1]]
     if k == "cold":
         pool = build_pool()
         docs = payload["docs"]
